@@ -25,10 +25,11 @@ META = {
                   'HandHistory.create_game', 'notation.parse_action', 'utilities.parse_value'],
     'assumptions': ['tomllib is the environment (TOML 1.0 grammar transcribed as regular expressions)',
                     'chips concrete (int, and Decimal in one family); single run-out',
-                    'known finding F10 (strings with control characters or three consecutive quotes; keys outside bare/whitespace form) carved out'],
-    'bounds': {'quick': '11 variants x 2-3 scripts, n=2..3; 6 commentary strings, 8 user-field values; strings <= 8 characters over ASCII in E2',
+                    'escaped (basic-string) region and quoted keys: decided by execution of the real dumps/loads over every ASCII code '
+                    'point in 10 contexts and all words <= 3 (thorough: 4) over a 16-class alphabet, not by the z3 string encoding'],
+    'bounds': {'quick': '11 variants x 2-3 scripts, n=2..3; 6 commentary strings, 8 user-field values; strings <= 7 (thorough: 8) characters over ASCII in E2',
                'thorough': 'more scripts'},
-    'outside': 'multiple run-outs; strings longer than 8 characters; non-ASCII in E2',
+    'outside': 'multiple run-outs; strings longer than 7 (8) characters; non-ASCII in E2',
 }
 
 PHH = {'FT': 'FT', 'NT': 'NT', 'NS': 'NS', 'PO': 'PO', 'FO8': 'FO/8', 'F7S': 'F7S', 'F7S8': 'F7S/8', 'FR': 'FR',
@@ -208,10 +209,12 @@ def smt_strings(budget_s: float = 120, maxlen: int = 8) -> dict:
     import inspect
     import textwrap
     import z3
+    from pokerkit import notation
     from pokerkit.notation import HandHistory
     t0 = time.time()
     src = textwrap.dedent(inspect.getsource(HandHistory.dumps))
     tree = ast.parse(src)
+    fn = tree.body[0]
     branch = None
     for node in ast.walk(tree):
         if isinstance(node, ast.If) and isinstance(node.test, ast.Call) and getattr(node.test.func, 'id', '') == 'isinstance' \
@@ -219,7 +222,23 @@ def smt_strings(budget_s: float = 120, maxlen: int = 8) -> dict:
             branch = node.body
     if branch is None:
         return dict(status='inconclusive', reason='string branch of clean_value not found', queries=0)
+    # constants of dumps (character sets) are evaluated from their defining expressions in the current source
+    consts: dict = {}
+    for st_ in fn.body:
+        if isinstance(st_, ast.Assign) and len(st_.targets) == 1 and isinstance(st_.targets[0], ast.Name):
+            try:
+                consts[st_.targets[0].id] = eval(compile(ast.Expression(st_.value), '<dumps-const>', 'eval'),
+                                                 dict(vars(notation)), dict(consts))
+            except Exception:
+                break
+        elif not (isinstance(st_, ast.Expr) and isinstance(getattr(st_, 'value', None), ast.Constant)):
+            break
     v = z3.String('v')
+
+    class Delegated:
+        """the value is produced by a helper the string translator does not enter (decided by the E1 jobs)."""
+        def __init__(self, name: str) -> None:
+            self.name = name
 
     def ev(e: ast.AST, env: dict) -> Any:
         if isinstance(e, ast.Constant) and isinstance(e.value, str):
@@ -230,6 +249,29 @@ def smt_strings(budget_s: float = 120, maxlen: int = 8) -> dict:
             return z3.Concat(ev(e.left, env), ev(e.right, env))
         if isinstance(e, ast.Compare) and isinstance(e.ops[0], ast.In):
             return z3.Contains(ev(e.comparators[0], env), ev(e.left, env))
+        if isinstance(e, ast.BoolOp):
+            parts = [ev(x, env) for x in e.values]
+            return z3.Or(*parts) if isinstance(e.op, ast.Or) else z3.And(*parts)
+        if isinstance(e, ast.UnaryOp) and isinstance(e.op, ast.Not):
+            return z3.Not(ev(e.operand, env))
+        if isinstance(e, ast.BinOp) and isinstance(e.op, ast.BitAnd):
+            # set(<string>) & <constant set of characters>, used as a truth value
+            l, r = e.left, e.right
+            if isinstance(l, ast.Call) and getattr(l.func, 'id', '') == 'set' and isinstance(r, ast.Name) and r.id in consts \
+                    and all(isinstance(c, str) and len(c) == 1 for c in consts[r.id]):
+                sv = ev(l.args[0], env)
+                # as ONE regular-expression membership (a disjunction of 30+ str.contains is `unknown` in z3)
+                codes = sorted(ord(c) for c in consts[r.id])
+                runs, lo = [], codes[0]
+                for a_, b_ in zip(codes, codes[1:] + [None]):
+                    if b_ is None or b_ != a_ + 1:
+                        runs.append(z3.Range(chr(lo), chr(a_)) if lo != a_ else z3.Re(chr(a_)))
+                        lo = b_
+                cls = runs[0] if len(runs) == 1 else z3.Union(*runs)
+                anyc = z3.Star(z3.Range(chr(0), chr(0x7f)))
+                return z3.InRe(sv, z3.Concat(anyc, cls, anyc))
+        if isinstance(e, ast.Call) and isinstance(e.func, ast.Name) and e.func.id.startswith('clean_'):
+            return Delegated(e.func.id)
         raise NotImplementedError(ast.dump(e)[:80])
 
     def run(stmts: list, env: dict, pc: Any, out: list) -> None:
@@ -262,44 +304,80 @@ def smt_strings(budget_s: float = 120, maxlen: int = 8) -> dict:
     q3 = z3.Re("'''")
     ml = z3.Concat(q3, body, q3)
     ascii_only = z3.InRe(v, z3.Star(ch(0x00, 0x7f)))
-    # carve-out of known finding F10
-    ctrl = z3.Union(ch(0x00, 0x08), ch(0x0a, 0x1f), z3.Re(chr(0x7f)))
-    f10 = z3.Or(z3.InRe(v, z3.Concat(z3.Star(ch(0, 0x7f)), ctrl, z3.Star(ch(0, 0x7f)))), z3.Contains(v, z3.StringVal("'''")))
-    queries, samples, found_f10 = 0, [], False
+    queries, samples, delegated = 0, [], []
     res = 'confirmed'
-    for carve in (True, False):
-        for pc, emitted in paths:
+    for pc, emitted in paths:
+        if isinstance(emitted, Delegated):
+            # reachability of the delegated region is recorded; its content is decided by strings/basic/*
             s = z3.Solver()
             s.set('timeout', int(budget_s * 1000))
             s.add(z3.Length(v) <= maxlen, ascii_only, pc)
-            # denotes v: literal -> content between the quotes; multi-line -> content, a leading newline is trimmed
-            ok_lit = z3.And(z3.InRe(emitted, literal), z3.SubString(emitted, 1, z3.Length(emitted) - 2) == v)
-            inner = z3.SubString(emitted, 3, z3.Length(emitted) - 6)
-            ok_ml = z3.And(z3.InRe(emitted, ml), inner == v, z3.Not(z3.PrefixOf(z3.StringVal('\n'), inner)))
-            s.add(z3.Not(z3.Or(ok_lit, ok_ml)))
-            if carve:
-                s.add(z3.Not(f10))
-            t = time.time()
             r = str(s.check())
             queries += 1
-            samples.append({'query': f'string quoting path, F10 carved out={carve}', 'result': r,
-                            'solver_s': round(time.time() - t, 2)})
-            if r == 'sat':
-                val = s.model().eval(v, model_completion=True).as_string()
-                val = val.encode().decode('unicode_escape') if '\\\\u' in val or '\\\\x' in val else val
-                rep = replay_string(val)
-                if carve:
-                    if rep['reproduced']:
-                        return dict(status='violation', kind='string-round-trip', detail=f'{val!r}: {rep}', queries=queries,
-                                    sample_queries=samples, replay={'values': {'string': val}, 'outcome': 'viol', 'trace': rep})
-                    return dict(status='harness-error', reason=f'string model {val!r} does not reproduce: {rep}', queries=queries)
-                found_f10 = found_f10 or rep['reproduced']
-            elif r != 'unsat' and carve:
-                res = 'inconclusive'
-    out = dict(status=res, reason='unsat outside the F10 class', queries=queries, sample_queries=samples,
-               solver_s=round(time.time() - t0, 2))
-    out['f10_still_present'] = found_f10
-    return out
+            delegated.append(emitted.name)
+            samples.append({'query': f'region handled by {emitted.name} is reachable (decided by the strings/basic jobs)', 'result': r})
+            continue
+        s = z3.Solver()
+        s.set('timeout', int(budget_s * 1000))
+        s.add(z3.Length(v) <= maxlen, ascii_only, pc)
+        # denotes v: literal -> content between the quotes; multi-line -> content, a leading newline is trimmed
+        ok_lit = z3.And(z3.InRe(emitted, literal), z3.SubString(emitted, 1, z3.Length(emitted) - 2) == v)
+        inner = z3.SubString(emitted, 3, z3.Length(emitted) - 6)
+        ok_ml = z3.And(z3.InRe(emitted, ml), inner == v, z3.Not(z3.PrefixOf(z3.StringVal('\n'), inner)))
+        s.add(z3.Not(z3.Or(ok_lit, ok_ml)))
+        t = time.time()
+        r = str(s.check())
+        queries += 1
+        samples.append({'query': 'string quoting path: emitted text is a TOML literal string denoting v', 'result': r,
+                        'solver_s': round(time.time() - t, 2)})
+        if r == 'sat':
+            val = s.model().eval(v, model_completion=True).as_string()
+            val = val.encode().decode('unicode_escape') if '\\u' in val or '\\x' in val else val
+            rep = replay_string(val)
+            if rep['reproduced']:
+                return dict(status='violation', kind='string-round-trip', detail=f'{val!r}: {rep}', queries=queries,
+                            sample_queries=samples, replay={'values': {'string': val}, 'outcome': 'viol', 'trace': rep})
+            return dict(status='harness-error', reason=f'string model {val!r} does not reproduce: {rep}', queries=queries)
+        elif r != 'unsat':
+            res = 'inconclusive'
+    return dict(status=res, reason=f'unsat on every literal-string path; delegated: {delegated}', queries=queries,
+                sample_queries=samples, solver_s=round(time.time() - t0, 2))
+
+
+#: character classes for the escaped (basic-string) region and for keys
+CLASS_ALPHABET = ['a', "'", '"', chr(92), '\n', '\r', '\t', '\x07', '\x7f', '\x00', ' ', '.', '#', '=', 'é', '\U0001f600']
+
+
+def h_strings(ctx: Any, mode: str, length: int = 3) -> None:
+    """real dumps -> loads of histories whose free-text fields / user keys are built from symbolic choices.
+    mode 'chars': ONE code point (every ASCII code point and class representatives beyond) in several contexts;
+    mode 'words': words over the class alphabet."""
+    from pokerkit.notation import HandHistory
+    warnings.simplefilter('ignore')
+    if mode == 'chars':
+        extra = [0x80, 0xe9, 0x7ff, 0x800, 0xd7ff, 0xe000, 0xffff, 0x10000, 0x10ffff]
+        k = ctx.choice('cp', 128 + len(extra))
+        c = chr(k) if k < 128 else chr(extra[k - 128])
+        ctxs = [c, 'a' + c, c + 'a', c + c, "'" + c, c + "'", "'''" + c, c + "'''", chr(92) + c, '"' + c + '"']
+        word = ctxs[ctx.choice('context', len(ctxs))]
+    else:
+        n = ctx.choice('len', length + 1)
+        word = ''.join(CLASS_ALPHABET[ctx.choice(f'c{i}', len(CLASS_ALPHABET))] for i in range(n))
+    as_key = ctx.flag('as-key')
+    fields = {('_' + word if as_key else '_s'): word, '_nested': {word: [word]} if as_key else [word]}
+    hh = HandHistory(variant='NT', antes=[0, 0], blinds_or_straddles=[1, 2], min_bet=2, starting_stacks=[10, 10],
+                     actions=['d dh p1 AsKs', 'd dh p2 2c2d', 'p1 f'], user_defined_fields=fields, event=word, venue=word)
+    try:
+        text = hh.dumps()
+        back = HandHistory.loads(text)
+    except Exception as e:
+        C.reraise_control(e)
+        ctx.fail('string-round-trip-raised', f'{word!r}: {type(e).__name__}: {e}')
+    ctx.check(back.user_defined_fields == fields, 'user-field-changed', lambda: f'{fields!r} -> {back.user_defined_fields!r}')
+    ctx.check(back.event == word and back.venue == word, 'text-field-changed', lambda: f'{word!r} -> {back.event!r}')
+    ctx.check(back == hh, 'history-changed', lambda: f'{word!r}')
+    ctx.check(back.dumps() == text, 'second-dump-differs', lambda: f'{word!r}')
+    ctx.cover('done')
 
 
 def replay_string(val: str) -> dict:
@@ -313,7 +391,8 @@ def replay_string(val: str) -> dict:
         return {'reproduced': True, 'error': f'{type(e).__name__}: {e}'[:200]}
 
 
-def known_f10() -> dict:
+def regression_f10() -> dict:
+    """F10 was repaired (fix: commit in known_findings.json): its listed inputs must round-trip."""
     hits = []
     for val in ('line1\nline2', "it's ''' three", 'bell\x07'):
         if replay_string(val)['reproduced']:
@@ -329,9 +408,10 @@ def known_f10() -> dict:
     except Exception:
         hits.append("key '_a.b'")
     if hits:
-        return dict(status='known-finding', native_replays=len(hits),
-                    what='F10 user-defined / commentary strings that do not survive dumps->loads: ' + ', '.join(hits))
-    return dict(status='confirmed', reason='F10 no longer reproduces', native_replays=4)
+        return dict(status='violation', kind='F10-returned',
+                    detail='strings / keys that do not survive dumps->loads: ' + ', '.join(hits),
+                    replay={'values': {'inputs': hits}, 'outcome': 'viol'})
+    return dict(status='confirmed', reason='the repaired F10 inputs round-trip', native_replays=4)
 
 
 CASES = [
@@ -364,6 +444,10 @@ def jobs(tier: str, seed: int) -> list[dict]:
         out.append(dict(name=f'roundtrip/{code}/n{n}/{script}/unknown-cards', fn='h_roundtrip', traced=False,
                         params=dict(code=code, n=n, script=script, stacks=stacks, unknown_seat=0), budget_s=B,
                         must_cover=['round-trip', 'unknown-cards']))
-    out.append(dict(name='strings/smt', kind='native', fn='smt_strings', params=dict(budget_s=120), budget_s=B))
-    out.append(dict(name='known/F10', kind='native', fn='known_f10', params={}, budget_s=30))
+    out.append(dict(name='strings/smt', kind='native', fn='smt_strings', params=dict(budget_s=200, maxlen=7 if tier == 'quick' else 8), budget_s=B + 200))
+    out.append(dict(name='regression/F10', kind='native', fn='regression_f10', params={}, budget_s=30))
+    out.append(dict(name='strings/basic/per-character', fn='h_strings', traced=False, params=dict(mode='chars'), budget_s=B,
+                    must_cover=['done']))
+    out.append(dict(name='strings/basic/words', fn='h_strings', traced=False,
+                    params=dict(mode='words', length=3 if tier == 'quick' else 4), budget_s=B, must_cover=['done']))
     return out
